@@ -54,6 +54,11 @@ def norm_call_kind(value, var: str, where: str) -> str:
 # ---- catalog.add_table ---------------------------------------------------------------------------------
 
 def add_table_facts(tree, src):
+    """Does add_table keep the first column list of a key it already has (add-if-absent) when it is GIVEN a column list?
+    Recognised shapes:
+      A  table = self.ensure_table(table); if self._schema.find(table): return; ...          -> True
+      B  table = ...; [existing = self._schema.find(table)]; if column_mapping is None: <block whose returns are all
+         guarded by `existing`>; ...  no other return                                         -> False (update-or-add)"""
     fn = py2v.find_method(tree, "_BaseCatalog", "add_table")
     body = _body(fn)
     if not body or not (isinstance(body[0], ast.Assign) and dotted(body[0].targets[0]) == "table"
@@ -61,22 +66,54 @@ def add_table_facts(tree, src):
         raise Untranslatable("add_table: does not start with `table = self.ensure_table(table)`")
     early = False
     rest = body[1:]
-    if rest and isinstance(rest[0], ast.If):
-        iff = rest[0]
-        t = iff.test
-        is_find = isinstance(t, ast.Call) and dotted(t.func) == "self._schema.find" and len(t.args) == 1 \
+
+    def is_find(t):
+        return isinstance(t, ast.Call) and dotted(t.func) == "self._schema.find" and len(t.args) == 1 \
             and dotted(t.args[0]) == "table" and not t.keywords
-        if is_find:
-            if iff.orelse or len(iff.body) != 1 or not isinstance(iff.body[0], ast.Return) or iff.body[0].value is not None:
-                raise Untranslatable("add_table: the `if self._schema.find(table)` branch is not a bare early return")
-            early = True
-            rest = rest[1:]
-    # no other early return at top level
+    if rest and isinstance(rest[0], ast.If) and is_find(rest[0].test):
+        iff = rest[0]
+        if iff.orelse or len(iff.body) != 1 or not isinstance(iff.body[0], ast.Return) or iff.body[0].value is not None:
+            raise Untranslatable("add_table: the `if self._schema.find(table)` branch is not a bare early return")
+        early = True
+        rest = rest[1:]
+    existing_var = None
+    if rest and isinstance(rest[0], ast.Assign) and isinstance(rest[0].targets[0], ast.Name) and is_find(rest[0].value):
+        existing_var = rest[0].targets[0].id
+        rest = rest[1:]
+
+    def guarded_by_existing(test):
+        if existing_var is None:
+            return False
+        if dotted(test) == existing_var:
+            return True
+        return isinstance(test, ast.BoolOp) and isinstance(test.op, ast.And) and dotted(test.values[0]) == existing_var
+
+    def check_none_block(node, guarded):
+        """inside `if column_mapping is None:` a return is allowed only under a test that starts with `existing`"""
+        for ch in ast.iter_child_nodes(node):
+            if isinstance(ch, ast.Return):
+                if not guarded or ch.value is not None:
+                    raise Untranslatable("add_table: a return in the `column_mapping is None` path that `existing` does not guard")
+            elif isinstance(ch, ast.If):
+                g = guarded or guarded_by_existing(ch.test)
+                for st in ch.body:
+                    check_none_block(ast.Module(body=[st], type_ignores=[]), g)
+                for st in ch.orelse:
+                    check_none_block(ast.Module(body=[st], type_ignores=[]), guarded)
+            else:
+                check_none_block(ch, guarded)
     for st in rest:
         if isinstance(st, ast.Return):
             raise Untranslatable("add_table: another top-level return")
         if isinstance(st, ast.If) and any(isinstance(x, ast.Return) for x in ast.walk(st)):
-            raise Untranslatable("add_table: a conditional return of an unrecognised shape")
+            t = st.test
+            none_path = (isinstance(t, ast.Compare) and dotted(t.left) == "column_mapping" and len(t.ops) == 1
+                         and isinstance(t.ops[0], ast.Is) and isinstance(t.comparators[0], ast.Constant)
+                         and t.comparators[0].value is None and not st.orelse)
+            if not none_path:
+                raise Untranslatable("add_table: a conditional return of an unrecognised shape")
+            for x in st.body:
+                check_none_block(ast.Module(body=[x], type_ignores=[]), False)
     last = rest[-1] if rest else None
     ok_last = (isinstance(last, ast.Expr) and isinstance(last.value, ast.Call)
                and dotted(last.value.func) == "self._schema.add_table"
@@ -218,54 +255,114 @@ def reader_facts(tree, src):
 # ---- session.sql: shape of the splice --------------------------------------------------------------------
 
 def sql_facts(tree, src):
+    """Shape of the splice in session.sql.  Recognised variants (anything else is refused):
+       lookup key `<table>.name`; target `<view>.expression.ctes[-1].alias_or_name`; CTE names already present skipped;
+       added CTEs appended after the query's own; qualify defaults to True and runs first on the catalog's schema cache;
+       skip_own   : `if <table>.name in <own cte names> [and not <table>.db]: continue` with
+                    <own cte names> = {cte.alias_or_name for cte in <q>.ctes} computed before the loop        (True | absent: False)
+       user_only  : the (table node, target) pairs are collected in a list and exactly those nodes are retargeted
+                    after the loop (True)  |  a dict keyed by the node + <q>.transform(...) over every equal node (False)"""
     fn = py2v.find_method(tree, "_BaseSession", "sql")
-    qd = None
     names = [a.arg for a in fn.args.args]
     defaults = dict(zip(names[len(names) - len(fn.args.defaults):], fn.args.defaults))
     if "qualify" not in defaults or not (isinstance(defaults["qualify"], ast.Constant) and defaults["qualify"].value is True):
         raise Untranslatable("session.sql: `qualify` does not default to True")
-    # the `if self.temp_views:` block
     blocks = [s for s in fn.body if isinstance(s, ast.If) and dotted(s.test) == "self.temp_views"]
     if len(blocks) != 1:
         raise Untranslatable("session.sql: the `if self.temp_views:` block was not found exactly once")
     blk = blocks[0]
-    # qualify runs before the splice
     qual_ifs = [s for s in fn.body if isinstance(s, ast.If) and dotted(s.test) == "qualify"]
     if len(qual_ifs) != 1 or fn.body.index(qual_ifs[0]) > fn.body.index(blk):
         raise Untranslatable("session.sql: qualify block missing or after the splice")
     qcalls = [n for n in ast.walk(qual_ifs[0]) if isinstance(n, ast.Call) and dotted(n.func) == "qualify_func"]
     if len(qcalls) != 1 or dotted(_kw(qcalls[0]).get("schema")) != "self.catalog._schema":
         raise Untranslatable("session.sql: qualify is not given the catalog's schema cache")
+    if "expand_alias_refs" in _kw(qcalls[0]):
+        raise Untranslatable("session.sql: qualify is called with expand_alias_refs (not a modelled variant)")
     loops = [s for s in blk.body if isinstance(s, ast.For)]
-    if len(loops) != 1:
+    main_loops = [l for l in loops if isinstance(l.iter, ast.Call) and isinstance(l.iter.func, ast.Attribute)
+                  and l.iter.func.attr == "find_all"]
+    if len(main_loops) != 1:
         raise Untranslatable("session.sql: expected one loop over the table references")
-    loop = loops[0]
+    loop = main_loops[0]
     it = loop.iter
-    if not (isinstance(it, ast.Call) and isinstance(it.func, ast.Attribute) and it.func.attr == "find_all"
-            and len(it.args) == 1 and dotted(it.args[0]) == "exp.Table" and isinstance(loop.target, ast.Name)):
+    if not (len(it.args) == 1 and dotted(it.args[0]) == "exp.Table" and isinstance(loop.target, ast.Name)):
         raise Untranslatable("session.sql: the loop does not range over find_all(exp.Table)")
     tvar = loop.target.id
     qd = dotted(it.func.value)
-    # lookup key
     gets = [n for n in ast.walk(loop) if isinstance(n, ast.Call) and dotted(n.func) == "self.temp_views.get"]
     if len(gets) != 1 or len(gets[0].args) != 1 or dotted(gets[0].args[0]) != tvar + ".name":
         raise Untranslatable("session.sql: registry lookup key is not `<table>.name`")
-    # target: <df>.expression.ctes[-1].alias_or_name stored under the table node
-    tgt_ok = False
+
+    def is_last_cte_name(v):
+        if isinstance(v, ast.Attribute) and v.attr == "alias_or_name" and isinstance(v.value, ast.Subscript):
+            idx = v.value.slice
+            neg1 = isinstance(idx, ast.UnaryOp) and isinstance(idx.op, ast.USub) and isinstance(idx.operand, ast.Constant) \
+                and idx.operand.value == 1
+            d = dotted(v.value.value)
+            return bool(neg1 and d and d.endswith(".expression.ctes"))
+        return False
+
+    # ---- how the target is recorded and applied
+    user_only = None
+    pair_list = None
     for n in ast.walk(loop):
-        if isinstance(n, ast.Assign) and isinstance(n.targets[0], ast.Subscript) and dotted(n.targets[0].slice) == tvar:
-            v = n.value
-            if isinstance(v, ast.Attribute) and v.attr == "alias_or_name" and isinstance(v.value, ast.Subscript):
-                sub = v.value
-                idx = sub.slice
-                neg1 = isinstance(idx, ast.UnaryOp) and isinstance(idx.op, ast.USub) and isinstance(idx.operand, ast.Constant) \
-                    and idx.operand.value == 1
-                d = dotted(sub.value)
-                if neg1 and d and d.endswith(".expression.ctes"):
-                    tgt_ok = True
-    if not tgt_ok:
+        if isinstance(n, ast.Assign) and isinstance(n.targets[0], ast.Subscript) and dotted(n.targets[0].slice) == tvar \
+                and is_last_cte_name(n.value):
+            user_only = False
+        if isinstance(n, ast.Call) and isinstance(n.func, ast.Attribute) and n.func.attr == "append" and len(n.args) == 1 \
+                and isinstance(n.args[0], ast.Tuple) and len(n.args[0].elts) == 2 and dotted(n.args[0].elts[0]) == tvar \
+                and is_last_cte_name(n.args[0].elts[1]):
+            user_only = True
+            pair_list = dotted(n.func.value)
+    if user_only is None:
         raise Untranslatable("session.sql: the reference is not retargeted to `<view>.expression.ctes[-1]`")
-    # skip CTE names already present
+    after = blk.body[blk.body.index(loop) + 1:]
+    if user_only:
+        # for <a>, <b> in <pair_list>: <a>.set("this", exp.to_identifier(<b>))   and nothing else rewrites tables
+        ok = False
+        for st in after:
+            if isinstance(st, ast.For) and dotted(st.iter) == pair_list and isinstance(st.target, ast.Tuple) \
+                    and len(st.target.elts) == 2 and len(st.body) == 1 and isinstance(st.body[0], ast.Expr):
+                a, b = (dotted(x) for x in st.target.elts)
+                c = st.body[0].value
+                if isinstance(c, ast.Call) and dotted(c.func) == f"{a}.set" and len(c.args) == 2 \
+                        and isinstance(c.args[0], ast.Constant) and c.args[0].value == "this" \
+                        and isinstance(c.args[1], ast.Call) and dotted(c.args[1].func) == "exp.to_identifier" \
+                        and [dotted(x) for x in c.args[1].args] == [b]:
+                    ok = True
+        if not ok or any(isinstance(n, ast.Attribute) and n.attr == "transform" for st in after for n in ast.walk(st)):
+            raise Untranslatable("session.sql: the collected table nodes are not retargeted one by one after the loop")
+    else:
+        if not any(isinstance(n, ast.Attribute) and n.attr == "transform" for st in after for n in ast.walk(st)):
+            raise Untranslatable("session.sql: node-keyed mapping without the transform that applies it")
+    # ---- skip references to the query's own CTEs
+    skip_own = False
+    for st in loop.body:
+        if isinstance(st, ast.If) and len(st.body) == 1 and isinstance(st.body[0], ast.Continue) and not st.orelse:
+            t = st.test
+            first = t.values[0] if isinstance(t, ast.BoolOp) and isinstance(t.op, ast.And) else t
+            if isinstance(first, ast.Compare) and dotted(first.left) == tvar + ".name" and len(first.ops) == 1 \
+                    and isinstance(first.ops[0], ast.In) and isinstance(first.comparators[0], ast.Name):
+                setname = first.comparators[0].id
+                extra_ok = True
+                if isinstance(t, ast.BoolOp):
+                    rest_ = t.values[1:]
+                    extra_ok = len(rest_) == 1 and isinstance(rest_[0], ast.UnaryOp) and isinstance(rest_[0].op, ast.Not) \
+                        and dotted(rest_[0].operand) == tvar + ".db"
+                # the set must be the query's own CTE names, computed before the loop
+                defs = [x for x in blk.body[: blk.body.index(loop)] if isinstance(x, ast.Assign)
+                        and dotted(x.targets[0]) == setname]
+                ok = (len(defs) == 1 and isinstance(defs[0].value, ast.SetComp)
+                      and dotted(defs[0].value.elt) == "cte.alias_or_name" and len(defs[0].value.generators) == 1
+                      and dotted(defs[0].value.generators[0].iter) == (qd or "") + ".ctes"
+                      and not defs[0].value.generators[0].ifs)
+                if not (ok and extra_ok):
+                    raise Untranslatable("session.sql: a `continue` on the table name of an unrecognised shape")
+                skip_own = True
+            elif not (isinstance(t, ast.UnaryOp) and isinstance(t.op, ast.Not)):
+                raise Untranslatable("session.sql: an unrecognised `continue` in the splice loop")
+    # ---- skip CTE names already present
     skip_ok = False
     for n in ast.walk(loop):
         if isinstance(n, ast.If) and isinstance(n.test, ast.Compare) and len(n.test.ops) == 1 \
@@ -275,7 +372,6 @@ def sql_facts(tree, src):
                 skip_ok = True
     if not skip_ok:
         raise Untranslatable("session.sql: `if cte.alias_or_name not in <present>: append` not found")
-    # appended after the query's own CTEs
     app_ok = False
     for n in ast.walk(loop):
         if isinstance(n, ast.Call) and dotted(n.func) == "exp.With":
@@ -285,7 +381,37 @@ def sql_facts(tree, src):
                 app_ok = True
     if not app_ok:
         raise Untranslatable("session.sql: added CTEs are not appended after the query's own (`<q>.ctes + ctes_to_add`)")
-    return {"hash": py2v.src_hash(fn, src)}
+    return {"hash": py2v.src_hash(fn, src), "skip_own": skip_own, "user_only": user_only}
+
+
+def rename_facts(tree, src):
+    """transforms.replace_id_value: does renaming a CTE touch only identifiers that name a table?
+       old:  if isinstance(node, exp.Identifier) and node in replacement_mapping: node = node.replace(...)        -> False
+       new:  the same, with the replacement under `if names_a_table:` where names_a_table is built from
+             isinstance(parent, (exp.Table, exp.TableAlias)) / exp.Column with node.arg_key == "table"            -> True"""
+    fn = py2v.find_func(tree, "replace_id_value")
+    body = _body(fn)
+    if len(body) != 2 or not isinstance(body[0], ast.If) or not isinstance(body[1], ast.Return) or body[0].orelse:
+        raise Untranslatable("replace_id_value: body shape")
+    inner = [s for s in body[0].body if not (isinstance(s, ast.Expr) and isinstance(s.value, ast.Constant))]
+
+    def is_replace(st):
+        return (isinstance(st, ast.Assign) and dotted(st.targets[0]) == "node" and isinstance(st.value, ast.Call)
+                and dotted(st.value.func) == "node.replace")
+    if len(inner) == 1 and is_replace(inner[0]):
+        return {"tables_only": False, "hash": py2v.src_hash(fn, src)}
+    guards = [s for s in inner if isinstance(s, ast.If)]
+    if len(guards) == 1 and dotted(guards[0].test) == "names_a_table" and not guards[0].orelse \
+            and len(guards[0].body) == 1 and is_replace(guards[0].body[0]):
+        defs = [s for s in inner if isinstance(s, ast.Assign) and dotted(s.targets[0]) == "names_a_table"]
+        if len(defs) == 1:
+            txt = ast.get_source_segment(src, defs[0].value) or ""
+            mentioned = {dotted(n) for n in ast.walk(defs[0].value) if dotted(n)}
+            keys = {n.value for n in ast.walk(defs[0].value) if isinstance(n, ast.Constant) and isinstance(n.value, str)}
+            if {"exp.Table", "exp.TableAlias", "exp.Column"} <= mentioned and keys == {"this", "table"} \
+                    and "exp.Alias" not in mentioned and txt:
+                return {"tables_only": True, "hash": py2v.src_hash(fn, src)}
+    raise Untranslatable("replace_id_value: neither the unconditional nor the tables-only shape")
 
 
 def generate(repo: str):
@@ -297,15 +423,19 @@ def generate(repo: str):
     reg = register_facts(df_tree, df_src)
     rd = reader_facts(rw_tree, rw_src)
     sq = sql_facts(se_tree, se_src)
+    tr_tree, tr_src = py2v.load(os.path.join(repo, "sqlframe/base/transforms.py"))
+    rn = rename_facts(tr_tree, tr_src)
     b = lambda x: "true" if x else "false"  # noqa: E731
     L = [
         "(* GENERATED from /repo on every run by translate/c13_facts.py -- do not edit *)",
         "From SF Require Import C13.Session.",
         f"Definition gen_cfg : cfg := mkCfg {b(early)} {b(reg['frozen'])} {b(reg['copy'])} {b(rd['views_first'])} "
-        f"{reg['norm']} {rd['norm']} {b(reg['assign_first'])}.",
+        f"{reg['norm']} {rd['norm']} {b(reg['assign_first'])} {b(sq['skip_own'])} {b(sq['user_only'])}.",
         "(* session.sql: lookup key <table>.name; target = last CTE of the view's chain; CTE names already present are",
         "   skipped; added CTEs follow the query's own; qualify (default True) runs first on the catalog's schema cache *)",
         "Definition splice_shape_recognised : bool := true.",
+        "(* transforms.replace_id_value renames only identifiers that name a table (not part of the Coq model: CTE hash names) *)",
+        f"Definition cte_rename_tables_only : bool := {b(rn['tables_only'])}.",
     ]
     facts = [
         {"name": "c_add_if_absent", "from": "catalog.py: _BaseCatalog.add_table (early return)", "value": early, "hash": h_add},
@@ -313,7 +443,9 @@ def generate(repo: str):
          "value": {k: reg[k] for k in ("frozen", "copy", "assign_first", "norm")}, "hash": reg["hash"]},
         {"name": "c_views_first/c_tbl_norm", "from": "readerwriter.py: _BaseDataFrameReader.table",
          "value": {k: rd[k] for k in ("views_first", "norm")}, "hash": rd["hash"]},
-        {"name": "splice_shape_recognised", "from": "session.py: _BaseSession.sql", "value": True, "hash": sq["hash"]},
+        {"name": "splice_shape_recognised/c_skip_own_ctes/c_user_refs_only", "from": "session.py: _BaseSession.sql",
+         "value": {"skip_own": sq["skip_own"], "user_only": sq["user_only"]}, "hash": sq["hash"]},
+        {"name": "cte_rename_tables_only", "from": "transforms.py: replace_id_value", "value": rn["tables_only"], "hash": rn["hash"]},
     ]
     return "\n".join(L) + "\n", facts
 
